@@ -99,6 +99,7 @@ func optsFor(prop string, tier string, i int, r *rng.Rand) GenOpts {
 		o.MaxSteps = 9
 		if i%2 == 1 {
 			o.Mode = "bg" // the REAL loop: timer flushes, timer checkpoints, rotation every 2nd checkpoint
+			o.Shutdown = true // Shutdown() at the end: the process must not exit while the loop is inside a step
 		} else {
 			o.Ckpt = true // synchronous mode, checkpoints and rotations as history steps
 		}
